@@ -28,14 +28,19 @@ theorem instantiate_core (env : Env) (hs : List Hook) : (instantiate env hs).1.c
   | nil => rfl
   | cons h hs ih => simp only [instantiate]; rw [ih]; rfl
 
+theorem phase1_core (env : Env) (hooks : List Hook) (m : Moment) (w : Int) :
+    (phase1 env hooks m w).1.core = env.core := by
+  unfold phase1; simp only
+  exact instantiate_core env _
+
+theorem phase2_core (env : Env) (m : Moment) (w : Int) : (phase2 env m w).1.core = env.core := by
+  unfold phase2; simp only; split <;> rfl
+
 theorem handleWeight_core (env : Env) (hooks : List Hook) (m : Moment) (w : Int) :
     (handleWeight env hooks m w).1.core = env.core := by
   unfold handleWeight
   simp only
-  have h1 := instantiate_core env ((hooks.filter (fun h => h.trig = m ∧ h.tw = w)).filter (fun h => !h.isTask))
-  generalize instantiate env ((hooks.filter (fun h => h.trig = m ∧ h.tw = w)).filter (fun h => !h.isTask)) = r1 at h1 ⊢
-  rw [instantiate_core]
-  split <;> exact h1
+  rw [instantiate_core, phase2_core, phase1_core]
 
 theorem handleWeights_core (env : Env) (hooks : List Hook) (m : Moment) (ws : List Int) :
     (handleWeights env hooks m ws).1.core = env.core := by
@@ -78,15 +83,20 @@ theorem setEoeorIfEmpty_st (env : Env) (tr : String) (s : RunStatus) :
     (setEoeorIfEmpty env tr s).1.st = env.st ∧ (setEoeorIfEmpty env tr s).1.gone = env.gone := by
   unfold setEoeorIfEmpty; split <;> exact ⟨rfl, rfl⟩
 
+theorem bkBefore_st (env : Env) (e : Ev) (r : Bool) :
+    (bkBefore env e r).1.st = env.st ∧ (bkBefore env e r).1.gone = env.gone ∧ (bkBefore env e r).1.pending = env.pending := by
+  unfold bkBefore
+  cases e <;> simp only [] <;> (try split) <;>
+    first
+    | trivial
+    | exact ⟨rfl, rfl, rfl⟩
+    | (unfold setSoeorIfEmpty; split <;> exact ⟨rfl, rfl, rfl⟩)
+
 theorem beforeEvent_st (env : Env) (hooks : List Hook) (e : Ev) (r : Bool) :
     (beforeEvent env hooks e r).1.st = env.st ∧ (beforeEvent env hooks e r).1.gone = env.gone := by
   unfold beforeEvent
   simp only
-  split
-  · exact ⟨handleHooks_st .., handleHooks_gone ..⟩
-  · cases e <;> simp only [] <;>
-      (repeat' split) <;>
-      simp [handleHooks_st, handleHooks_gone, setSoeorIfEmpty_st, tick]
+  (repeat' split) <;> simp [handleHooks_st, handleHooks_gone, (bkBefore_st _ _ _).1, (bkBefore_st _ _ _).2.1]
 
 theorem leaveState_st (env : Env) (hooks : List Hook) (e : Ev) (b : Bool) :
     (leaveState env hooks e b).1.st = env.st ∧ (leaveState env hooks e b).1.gone = env.gone := by
@@ -100,13 +110,26 @@ theorem enterState_st (env : Env) (hooks : List Hook) :
   unfold enterState
   simp [handleHooks_st, handleHooks_gone]
 
+theorem bkAfter_st (env : Env) (e : Ev) (f : Bool) :
+    (bkAfter env e f).1.st = env.st ∧ (bkAfter env e f).1.gone = env.gone ∧ (bkAfter env e f).1.pending = env.pending := by
+  unfold bkAfter
+  cases e <;> simp only [] <;>
+    first
+    | trivial
+    | exact ⟨rfl, rfl, rfl⟩
+    | (unfold setEoeorIfEmpty; split <;> exact ⟨rfl, rfl, rfl⟩)
+
+theorem finAfter_st (env : Env) (e : Ev) :
+    (finAfter env e).1.st = env.st ∧ (finAfter env e).1.gone = env.gone ∧ (finAfter env e).1.pending = env.pending := by
+  unfold finAfter; split <;> exact ⟨rfl, rfl, rfl⟩
+
 theorem afterEvent_st (env : Env) (hooks : List Hook) (e : Ev) (errs : List (Nat × Moment)) :
     (afterEvent env hooks e errs).1.st = env.st ∧ (afterEvent env hooks e errs).1.gone = env.gone := by
   unfold afterEvent
   simp only
-  cases e <;> simp only [] <;>
-    (repeat' split) <;>
-    simp [handleHooks_st, handleHooks_gone, setEoeorIfEmpty_st, tick]
+  rw [(finAfter_st _ _).1, (finAfter_st _ _).2.1, handleHooks_st, handleHooks_gone, (bkAfter_st _ _ _).1, (bkAfter_st _ _ _).2.1,
+    handleHooks_st, handleHooks_gone]
+  exact ⟨rfl, rfl⟩
 
 /-- Results after which the state is the one before the request. -/
 def Result.keepsState : Result → Bool
